@@ -173,7 +173,7 @@ DecGreedy ==
     /\ UNCHANGED <<phase, pos, dframes>> /\ Keep
 
 DecGreedyEnd ==
-    /\ Running /\ DTop.op = "gend"
+    /\ Running /\ DTop.op \in {"gend", "umark"}
     /\ dtodo' = DRest
     /\ UNCHANGED <<phase, pos, dframes, dwalk>> /\ Keep
 
